@@ -10,7 +10,10 @@
 
    primitive request:  <prim> <flags> <unq 0|1> <pos> <hex> [<arg>]
    reply:              <ret - start> <error> <error_loc - start> <line> <line_start - start> <unquoted> <value>
-   parser request:     parse <Root|Leaf|Other|Sub|Rec|Pt|Fix> <flags> <fidmode 0|1> <want buffer hex 0|1> <hex>
+   parser request:     parse|parsem <Root|Leaf|Other|Sub|Rec|Node|Pt|Fix> <flags> <fidmode 0|1> <want buffer hex 0|1> <hex>
+   (parsem: the same parse on a FRESH builder made with flatcc_builder_custom_init and an allocator that moves every block
+    it grows - malloc of exactly the requested size, copy, free - so that any pointer into a builder stack kept across a
+    growing operation is a heap-use-after-free for ASan; no reuse step; sizes rounded up to 8)
    reply:              OK <end_loc - start> <size> <verify rc> <fnv of buffer> [<buffer hex>]
                        ERR <rc> <ctx.error> <error_loc - start> <line> <pos> REUSE <0 same bytes as fresh builder | 1 differs | 2 build failed>
 */
@@ -109,6 +112,25 @@ static int build_ref(flatcc_builder_t *b, uint8_t **out, size_t *size)
     *out = (uint8_t *)p; return 0;
 }
 
+/* builder allocator for `parsem`: never grows in place, blocks have exactly the requested size */
+static int moving_alloc(void *alloc_context, flatcc_iovec_t *b, size_t request, int zero_fill, int hint)
+{
+    void *p;
+    (void)alloc_context; (void)hint;
+    if (request == 0) { free(b->iov_base); b->iov_base = 0; b->iov_len = 0; return 0; }
+    if (request <= b->iov_len) return 0;
+    /* the requested size rounded up to 8: refresh_ds (builder.c:209) computes iov_len - ds_first unsigned, and a new frame's
+       ds_first is aligned up to 8, so a block whose length is not a multiple of 8 makes ds_limit wrap (builder matter, not C04) */
+    request = (request + 7) & ~(size_t)7;
+    if (!(p = malloc(request))) return -1;
+    if (b->iov_base) memcpy(p, b->iov_base, b->iov_len);
+    if (zero_fill) memset((uint8_t *)p + b->iov_len, 0, request - b->iov_len);
+    else memset((uint8_t *)p + b->iov_len, 0xa5, request - b->iov_len);
+    free(b->iov_base);
+    b->iov_base = p; b->iov_len = request;
+    return 0;
+}
+
 typedef int parse_f(flatcc_builder_t *B, flatcc_json_parser_t *ctx, const char *buf, size_t bufsiz, flatcc_json_parser_flags_t flags, const char *fid);
 typedef int verify_f(const void *buf, size_t bufsiz, const char *fid);
 struct root { const char *name; parse_f *parse; verify_f *verify, *verify_ws; };
@@ -119,6 +141,7 @@ static struct root roots[] = {
     { "Sub", C4_Sub_parse_json_as_root, C4_Sub_verify_as_root_with_identifier, C4_Sub_verify_as_root_with_identifier_and_size },
     { "Pt", C4_Pt_parse_json_as_root, C4_Pt_verify_as_root_with_identifier, C4_Pt_verify_as_root_with_identifier_and_size },
     { "Rec", C4_Rec_parse_json_as_root, C4_Rec_verify_as_root_with_identifier, C4_Rec_verify_as_root_with_identifier_and_size },
+    { "Node", C4_Node_parse_json_as_root, C4_Node_verify_as_root_with_identifier, C4_Node_verify_as_root_with_identifier_and_size },
     { "Fix", C4_Fix_parse_json_as_root, C4_Fix_verify_as_root_with_identifier, C4_Fix_verify_as_root_with_identifier_and_size },
     { 0, 0, 0, 0 }
 };
@@ -138,6 +161,36 @@ int main(void)
         if (n == 0) { printf("BAD\n"); fflush(stdout); continue; }
         asan_hits = 0; asan_write = 0; ubsan_hits = 0;
         alarm(20);
+        if (!strcmp(t[0], "parsem") && n == 6) {
+            struct root *r = roots; int rc; flatcc_json_parser_flags_t flags = (flatcc_json_parser_flags_t)atoi(t[2]);
+            const char *fid = atoi(t[3]) ? "C4RT" : 0; flatcc_builder_t MB;
+            while (r->name && strcmp(r->name, t[1])) ++r;
+            if (!r->name) { printf("BAD\n"); fflush(stdout); continue; }
+            buf = exact_copy(t[5], &len, &fr);
+            if (flatcc_builder_custom_init(&MB, 0, 0, moving_alloc, 0)) { printf("INITFAIL\n"); fflush(stdout); free(fr); continue; }
+            rc = r->parse(&MB, &ctx, buf, len, flags, fid);
+            if (asan_hits) { printf("ASAN %s", asan_msg); UB_SUFFIX(); printf("\n"); }
+            else if (rc == 0) {
+                size_t size = 0; void *out = flatcc_builder_finalize_aligned_buffer(&MB, &size); int vrc;
+                if (!out) { printf("OK %ld 0 -1 0", (long)(ctx.end_loc - buf)); UB_SUFFIX(); printf("\n"); }
+                else {
+                    alarm(3); in_verify = 1;
+                    if (sigsetjmp(verify_jmp, 1)) vrc = -2;
+                    else vrc = (flags & flatcc_json_parser_f_with_size) ? r->verify_ws(out, size, fid) : r->verify(out, size, fid);
+                    in_verify = 0; alarm(20);
+                    printf("OK %ld %lu %d %016llx", (long)(ctx.end_loc - buf), (unsigned long)size, vrc, (unsigned long long)fnv64((uint8_t *)out, size));
+                    if (asan_hits) printf(" ASAN-IN-VERIFY %s", asan_msg);
+                    UB_SUFFIX(); printf("\n");
+                    flatcc_builder_aligned_free(out);
+                }
+            } else {
+                printf("ERR %d %d %ld %d %d", rc, ctx.error, (long)(ctx.error_loc - buf), ctx.line, ctx.pos); UB_SUFFIX(); printf("\n");
+            }
+            flatcc_builder_clear(&MB);
+            free(fr); alarm(0); fflush(stdout);
+            if (asan_write) return 99;
+            continue;
+        }
         if (!strcmp(t[0], "parse") && n == 6) {
             struct root *r = roots; int rc; flatcc_json_parser_flags_t flags = (flatcc_json_parser_flags_t)atoi(t[2]);
             const char *fid = atoi(t[3]) ? "C4RT" : 0; int want_hex = atoi(t[4]);
